@@ -37,6 +37,33 @@ def small_scope(ct):
                 yield k, [alpha[i] for i in combo]
 
 
+def nested_td_merges(rnd, n):
+    """Second-level merges: every value is a list (or dict-of / tuple-of) of small str-keyed dicts with overlapping key
+    sets, so per-value inference already merges TypedDicts (producing optional fields) and the merge across values
+    then meets TypedDicts that carry optional fields, overflow the limit only together, or disagree on value types."""
+    import collections
+    keys = ["a", "b", "c", "d"]
+    atoms = [1, "x", None, 2.5, [1], {"q": 1}]
+    out = []
+    for _ in range(n):
+        def small_dict():
+            ks = rnd.sample(keys, rnd.choice([1, 1, 2, 2, 3]))
+            return {k: rnd.choice(atoms) for k in ks}
+        def group():
+            return [small_dict() for _ in range(rnd.choice([1, 2, 2, 3]))]
+        ngroups = rnd.choice([1, 2, 2, 3])
+        wrap = rnd.choice(["list", "list", "list", "dictval", "tuple", "ddict", "listlist"])
+        vs = []
+        for _ in range(ngroups):
+            g = group()
+            vs.append({"list": g, "dictval": {"k": g}, "tuple": (g, 1), "ddict": collections.defaultdict(int, {1: g}),
+                       "listlist": [g]}[wrap])
+        if rnd.random() < 0.3:
+            vs.append(rnd.choice([None, [], 1, [{}]]))
+        out.append((rnd.choice([1, 2, 2, 3, 3, 10]), vs))
+    return out
+
+
 def generate(seed, n_random, with_small_scope, extra_cases=()):
     """Returns (ct, cases) with cases = list of dict(k, vs, impl, term, nontrivial)."""
     ct = common.ClassTable()
@@ -45,6 +72,7 @@ def generate(seed, n_random, with_small_scope, extra_cases=()):
     raw = list(extra_cases)
     if with_small_scope:
         raw.extend(small_scope(ct))
+    raw.extend(nested_td_merges(rnd, max(200, n_random // 3)))
     for i in range(n_random):
         k = rnd.choice(KS)
         raw.append((k, g.values()))
